@@ -53,12 +53,29 @@ def units_of(path):
     return out
 
 
+# properties whose oracle runs over EVERY module family (harness/zoo.py): all module / solver sources are modelled source for them
+ALL_MODULE_FILES = ["pymoto/core_objects.py", "pymoto/utils.py", "pymoto/common/dyadcarrier.py", "pymoto/common/domain.py",
+                    "pymoto/modules/aggregation.py", "pymoto/modules/assembly.py", "pymoto/modules/complex.py",
+                    "pymoto/modules/filter.py", "pymoto/modules/generic.py", "pymoto/modules/linalg.py", "pymoto/modules/scaling.py",
+                    "pymoto/solvers/solvers.py", "pymoto/solvers/auto_determine.py", "pymoto/solvers/dense.py",
+                    "pymoto/solvers/sparse.py", "pymoto/solvers/iterative.py", "pymoto/solvers/matrix_checks.py"]
+EXTRA_FILES = {"C01": ALL_MODULE_FILES, "C03": ALL_MODULE_FILES, "C04": ALL_MODULE_FILES,
+               "C07": ["pymoto/solvers/dense.py", "pymoto/solvers/sparse.py", "pymoto/solvers/matrix_checks.py"],
+               "C11": ["pymoto/solvers/solvers.py", "pymoto/solvers/auto_determine.py"],
+               "C12": ["pymoto/modules/generic.py"], "C19": ["pymoto/core_objects.py", "pymoto/utils.py"],
+               "C10": ["pymoto/core_objects.py"], "C17": ["pymoto/core_objects.py"]}
+
+
 def files_of(prop):
+    out = []
     for line in open(os.path.join(common.VERIF, "properties.jsonl")):
         p = json.loads(line)
         if p["id"] == prop:
-            return list(p.get("anchors", {}).get("files", []))
-    return []
+            out = list(p.get("anchors", {}).get("files", []))
+    for f in EXTRA_FILES.get(prop, []):
+        if f not in out:
+            out.append(f)
+    return out
 
 
 def current(files):
